@@ -52,7 +52,7 @@ def item_of(w, p, dump, kind, x):
     return {'start': dump.ts2k.get(x.timestamp, -1), 'frames': frames}
 
 
-def run_session(rnd, w, dumps, kinds, gen_cfg, nacts=14, max_gens=4):
+def run_session(rnd, w, dumps, kinds, gen_cfg, nacts=14, max_gens=4, scenarios=None):
     """returns (observation, human readable script)"""
     from pykdebugparser.pykdebugparser import PyKdebugParser
     p = PyKdebugParser()
@@ -197,7 +197,7 @@ def run_session(rnd, w, dumps, kinds, gen_cfg, nacts=14, max_gens=4):
             if failed() or not do_adv(gi):
                 break
 
-    scenario = rnd.choice(['abandon', 'abandon', 'interleave', 'interleave', 'edit', 'edit', 'random', 'random', 'prepared', 'prepared', 'peek', 'peek'] +
+    scenario = rnd.choice(scenarios) if scenarios else rnd.choice(['abandon', 'abandon', 'interleave', 'interleave', 'edit', 'edit', 'random', 'random', 'prepared', 'prepared', 'peek', 'peek'] +
                           (['finalise'] * 3 if 'cs' in kinds else []))
     if rnd.random() < 0.2:
         do_badopen()
@@ -311,7 +311,7 @@ def run_session(rnd, w, dumps, kinds, gen_cfg, nacts=14, max_gens=4):
     return obs, script, gens
 
 
-def run_sessions(ctx, rnd, n, kinds, gen_dump, gen_cfg, tag, nacts=14):
+def run_sessions(ctx, rnd, n, kinds, gen_dump, gen_cfg, tag, nacts=14, scenarios=None):
     """n seeded sessions validated by Sessions_Val; violations reported under ctx.prop. Returns stats."""
     obs, info = [], {}
     nadv = 0
@@ -328,7 +328,7 @@ def run_sessions(ctx, rnd, n, kinds, gen_dump, gen_cfg, tag, nacts=14):
             c = rnd.choice(dumps).cut_copy(rnd)
             if c is not None:
                 dumps.append(c)
-        o, script, gens = run_session(rnd, w, dumps, kinds, gen_cfg, nacts=nacts)
+        o, script, gens = run_session(rnd, w, dumps, kinds, gen_cfg, nacts=nacts, scenarios=scenarios)
         keep.append(gens)         # abandoned listings stay referenced until the end of the run
         if len(keep) > 50:
             del keep[0]
